@@ -1,18 +1,18 @@
 import json, subprocess, sys, os
 ROUND = sys.argv[1]
 TAKEN = {
- "C02": ["zero-code expansion placement vs. the restore-on-failed-parse guard (two variants)", "deserializer remembering the last parsed header's template for lazy body parses", "NUL stripping of text fields", "dropping bytes after the last template block", "serializer reusing one body buffer that is not cleared after a failed encode", "Message.take() making a shallow copy of an unparsed message (shared block dict)"],
- "C04": ["get_original_id fast path forgetting the injection base after window eviction", "RESENT packets not passed to track_seen (two variants)", "break/continue in the back-translation loop", "track_seen losing its only-raise guard so an older ID lowers the highest-seen mark", "get_effective_id memoising translations that go stale after an injection"],
- "C05": ["appended-ack translation ordered after the PacketAck body rewrite", "resend loop breaking at the first not-yet-due entry", "filtering acks against the `dropped` list in the wrong ID space", "resend deadline advanced by the interval instead of reset to now (burst after a stall)", "resend timer of a new injection started from last_packet_at instead of now"],
- "C06": ["failed-parse handler wiping the restored raw body", "untrack_region_objects raising KeyError on an untracked handle (two variants)", "SOCKS frag/rsv validation", "ban applied in the wrong direction", "open_circuit returning False for an already-live circuit (retransmitted UseCircuitCode dropped)", "pruning not-alive regions from session.regions on another region's teardown"],
- "C07": ["take() not clearing `queued` on the copy", "subscribe_async not unsubscribing on abnormal exit", "prepare_message refusing packets whose ID is in `dropped`", "wait_for handler acting after its future is done", "double drop of a taken message", "merging the try/except around session-level and region-level handler dispatch", "Event.notify aborted by a raising predicate", "Event.notify iterating the live subscriber list instead of a snapshot"],
- "C14": ["_untrack_orphan dropping the whole sibling list", "track_object adopting orphans only if the ID was in missing_locals", "avatar orphans around _kill_object_by_local_id / collect_orphans", "futures not cancelled / re-resolved", "re-announcement under a new local ID parenting the object twice", "untrack_object merging its child loops so surviving children are not recorded as orphans"],
- "C15": ["finally replaced by except that resumes without checking `taken`", "CapData.deserialize matching only regions with a circuit (two variants)", "orig_flow hoisted out of the proxy-side pump loop so the finally re-resumes the previous flow", "CapData.serialize raising on dead session/region weakrefs"],
- "C16": ["update_caps skipping a grant identical to an existing entry", "CapData.deserialize looking the region address up across all sessions", "temporary-cap consumption re-adding survivors in reversed order", "register_proxy_cap idempotence", "session-level resolve_cap consuming a temporary cap through a stale loop variable (wrong region)", "removing proxy-only names from the Seed request list while iterating over it"],
- "C17": ["get_cached_poll_response returning None while _last_ack is None", "EventQueueManager state moved to class attributes", "clear() not resetting the replay cache across region teardown", "replay cache filled before the emptied-response-to-undef conversion", "injected events snapshotted before the hooks run, whole queue dropped afterwards"],
- "C18": ["id()-keyed cache of the last thawed message (two variants)", "add_log_entry ignoring `paused`", "operator semantics (&, !=, >=) in the filter evaluator", "aged-out bookkeeping counter not reset by clear()", "set_filter returning early when the filter text is unchanged"],
- "C19": ["collect_acks placed below the duplicate early-return (two variants)", "companion set for the dedupe window evicting the wrong ID", "region-level subscribers not guarded against resends", "collect_acks returning instead of continuing at the first non-pending ID", "Circuit.disconnect no longer clearing the unacked table"],
- "C20": ["length-prefix strip guarded by size_known", "Xfer inactivity timeout turned into a total deadline", "turbo-Xfer ACK loop variable shadowing the packet number", "Transfer completing on the DONE packet alone", "Transfer.reassemble_chunks joining chunks in arrival order", "Transfer completion check skipped until size_known resolves"],
+ "C02": ["zero-code expansion placement vs. the restore-on-failed-parse guard (two variants)", "deserializer remembering the last parsed header's template for lazy body parses", "NUL stripping of text fields", "dropping bytes after the last template block", "serializer reusing one body buffer that is not cleared after a failed encode", "Message.take() making a shallow copy of an unparsed message (shared block dict)", "zero_code_compress emitting 00 00 for runs of exactly 255*k zeros"],
+ "C04": ["get_original_id fast path forgetting the injection base after window eviction", "RESENT packets not passed to track_seen (two variants)", "break/continue in the back-translation loop", "track_seen losing its only-raise guard so an older ID lowers the highest-seen mark", "get_effective_id memoising translations that go stale after an injection", "off-by-one shortcut in get_effective_id for the packet directly before the newest injection"],
+ "C05": ["appended-ack translation ordered after the PacketAck body rewrite", "resend loop breaking at the first not-yet-due entry", "filtering acks against the `dropped` list in the wrong ID space", "resend deadline advanced by the interval instead of reset to now (burst after a stall)", "resend timer of a new injection started from last_packet_at instead of now", "collect_acks ignoring RESENT messages"],
+ "C06": ["failed-parse handler wiping the restored raw body", "untrack_region_objects raising KeyError on an untracked handle (two variants)", "SOCKS frag/rsv validation", "ban applied in the wrong direction", "open_circuit returning False for an already-live circuit (retransmitted UseCircuitCode dropped)", "pruning not-alive regions from session.regions on another region's teardown", "dropping datagrams whose packet ID is more than the tracker window below the highest seen"],
+ "C07": ["take() not clearing `queued` on the copy", "subscribe_async not unsubscribing on abnormal exit", "prepare_message refusing packets whose ID is in `dropped`", "wait_for handler acting after its future is done", "double drop of a taken message", "merging the try/except around session-level and region-level handler dispatch", "Event.notify aborted by a raising predicate", "Event.notify iterating the live subscriber list instead of a snapshot", "FILE_MTIMES.pop without default in the failed addon reload path", "coroutine subscribers run with late-bound loop variables"],
+ "C14": ["_untrack_orphan dropping the whole sibling list", "track_object adopting orphans only if the ID was in missing_locals", "avatar orphans around _kill_object_by_local_id / collect_orphans", "futures not cancelled / re-resolved", "re-announcement under a new local ID parenting the object twice", "untrack_object merging its child loops so surviving children are not recorded as orphans", "RegionObjectsState.clear() not emptying the orphan list"],
+ "C15": ["finally replaced by except that resumes without checking `taken`", "CapData.deserialize matching only regions with a circuit (two variants)", "orig_flow hoisted out of the proxy-side pump loop so the finally re-resumes the previous flow", "CapData.serialize raising on dead session/region weakrefs", "resume() no longer resetting taken so a later preempt() asserts"],
+ "C16": ["update_caps skipping a grant identical to an existing entry", "CapData.deserialize looking the region address up across all sessions", "temporary-cap consumption re-adding survivors in reversed order", "register_proxy_cap idempotence", "session-level resolve_cap consuming a temporary cap through a stale loop variable (wrong region)", "removing proxy-only names from the Seed request list while iterating over it", "register_wrapper_cap popping earlier wrapper entries"],
+ "C17": ["get_cached_poll_response returning None while _last_ack is None", "EventQueueManager state moved to class attributes", "clear() not resetting the replay cache across region teardown", "replay cache filled before the emptied-response-to-undef conversion", "injected events snapshotted before the hooks run, whole queue dropped afterwards", "register_region skipping regions whose circuit is closed (duplicate registration)"],
+ "C18": ["id()-keyed cache of the last thawed message (two variants)", "add_log_entry ignoring `paused`", "operator semantics (&, !=, >=) in the filter evaluator", "aged-out bookkeeping counter not reset by clear()", "set_filter returning early when the filter text is unchanged", "WrappingMessageLogger.add_log_entry short-circuiting with any()"],
+ "C19": ["collect_acks placed below the duplicate early-return (two variants)", "companion set for the dedupe window evicting the wrong ID", "region-level subscribers not guarded against resends", "collect_acks returning instead of continuing at the first non-pending ID", "Circuit.disconnect no longer clearing the unacked table", "track_reliable fast path assuming the dedupe window is sorted"],
+ "C20": ["length-prefix strip guarded by size_known", "Xfer inactivity timeout turned into a total deadline", "turbo-Xfer ACK loop variable shadowing the packet number", "Transfer completing on the DONE packet alone", "Transfer.reassemble_chunks joining chunks in arrival order", "Transfer completion check skipped until size_known resolves", "upload chunk offsets computed from the length before the 4-byte prefix"],
 }
 tmpl = open("PROMPT.tmpl").read()
 props = {json.loads(l)["id"]: json.loads(l) for l in open("/verif/properties.jsonl")}
